@@ -22,6 +22,7 @@ class FnInfo:
         self._ptr = {}; self._lin = {}
         self.load_atom = {}      # load inst id -> atom
         self.mphi = {}           # memory-phi token -> {pred block id: token}
+        self.call_state = {}     # (block id, inst idx) of a call -> available-location state just before it
         self._avail_done = False
 
     # ---------- pointers: (root, Lin byte offset) ----------
@@ -124,9 +125,22 @@ class FnInfo:
             return Lin.atom(("base", root)) + off
         if op == "and" and cint(1) is not None:
             return Lin.atom(("and", i.id))
+        if op == "extractvalue" and i.get("indices") == [0] and i.ops[0]["k"] == "inst":
+            c = self.fn.imap[i.ops[0]["v"]]
+            if c.op == "call" and (c.get("callee") or "").startswith(("llvm.umul.with.overflow", "llvm.uadd.with.overflow", "llvm.sadd.with.overflow", "llvm.smul.with.overflow")):
+                a, b = self.lin(c.ops[0]), self.lin(c.ops[1])
+                if "add" in c["callee"]: return a + b
+                if a.is_const(): return b.scale(a.c)
+                if b.is_const(): return a.scale(b.c)
         return Lin.atom(("i", i.id))
 
     def token_lin(self, tok):
+        if tok[0] == "cv":
+            c = self.fn.imap[tok[1]]; k, ai, aj = self.world.outvals()[c["callee"]]
+            a, b = self.lin(c.ops[ai]), self.lin(c.ops[aj])
+            if a.is_const(): return b.scale(a.c)
+            if b.is_const(): return a.scale(b.c)
+            return Lin.atom(("mul", tok[1]))
         if tok[0] == "st":
             st = self.fn.bmap[tok[1]].insts[tok[2]]
             if st.ops[0]["t"].endswith("*"): return Lin.atom(tok)
@@ -185,6 +199,8 @@ class FnInfo:
         def transfer(b, st, record):
             st = dict(st)
             for i in b.insts:
+                if record and i.op == "call" and i.get("callee") and not i["callee"].startswith("llvm."):
+                    self.call_state[(b.id, i.idx)] = dict(st)
                 if i.op == "load":
                     loc = self.loc_of(i.ops[0], i["size"])
                     if loc[1] is not None and loc in st:
@@ -198,23 +214,40 @@ class FnInfo:
                     if ks:
                         for loc in list(st):
                             if any(self._overlap(loc, k) for k in ks): del st[loc]
+                    if i.op == "call" and i.get("callee") in self.world.outvals():
+                        k, ai, aj = self.world.outvals()[i["callee"]]
+                        root, off = self.ptr(i.ops[k])
+                        if off.is_const() and root[0] == "alloca":
+                            st[(root, off.c, 8)] = ("cv", i.id)
                     if i.op == "store" and ks and ks[0][1] is not None:
                         st[ks[0]] = ("st", b.id, i.idx)
             return st
         for b in fn.rpo: OUT[b.id] = None
+        # memory reachable from a parameter is unmodified at entry: its first load yields the *entry value* of that location
+        entry_state = {}
+        for i in fn.insts():
+            if i.op == "load":
+                loc = self.loc_of(i.ops[0], i["size"])
+                if loc[1] is not None and loc[0][0] == "arg": entry_state[loc] = ("entry", loc)
         changed = True; rounds = 0
         while changed and rounds < 50:
             changed = False; rounds += 1
             for b in fn.rpo:
                 ps = [OUT[p.id] for p in b.preds if OUT.get(p.id) is not None]
-                if b is fn.entry: st = {}
+                if b is fn.entry: st = dict(entry_state)
                 elif not ps: continue
                 else:
                     st = {}
                     vis = [p for p in b.preds if OUT.get(p.id) is not None]   # optimistic: unvisited preds agree
-                    for k in ps[0]:
+                    keys = set()
+                    for q in ps: keys |= set(q)
+                    for k in keys:
                         vals = [OUT[p.id].get(k) for p in vis]
-                        if any(v is None for v in vals): continue
+                        if any(v is None for v in vals):
+                            # killed (or never loaded) on some incoming path: keep the join as a memory phi with an unknown
+                            # alternative, but only for parameter-rooted locations (entry values), to keep states small
+                            if k[0][0] != "arg": continue
+                            vals = [v if v is not None else ("unk", p.id, k) for v, p in zip(vals, vis)]
                         tok = ("mphi", b.id, k)
                         others = [v for v in vals if v != tok]
                         if others and all(v == others[0] for v in others): st[k] = others[0]
@@ -240,6 +273,30 @@ class World:
     def fi(self, fn):
         if fn.name not in self.info: self.info[fn.name] = FnInfo(fn, self)
         return self.info[fn.name]
+    def outvals(self):
+        """checked-multiply helpers: {name: (k, i, j)} meaning `*param_k = param_i * param_j` (or 0 when a factor is 0)
+        on every path - recognised structurally: every store goes to param k and stores const 0 or mul(arg i, arg j)"""
+        if getattr(self, "_outvals", None) is not None: return self._outvals
+        out = {}
+        for f in self.mod.defined():
+            if len(f.blocks) > 6 or f.d["ret"] != "i1": continue
+            stores = [i for i in f.insts() if i.op == "store"]
+            if not stores or any(i.op == "call" and not (i.get("callee") or "").startswith("llvm.dbg") for i in f.insts()): continue
+            ks = set(); pair = set(); ok = True
+            for st in stores:
+                a = st.ops[1]
+                if a["k"] != "arg": ok = False; break
+                ks.add(a["v"])
+                v = st.ops[0]
+                if v["k"] == "int" and int(v["v"]) == 0: continue
+                if v["k"] == "inst" and f.imap[v["v"]].op == "mul":
+                    m = f.imap[v["v"]]
+                    if all(o["k"] == "arg" for o in m.ops): pair.add(tuple(sorted(o["v"] for o in m.ops))); continue
+                ok = False; break
+            if ok and len(ks) == 1 and len(pair) == 1:
+                (i, j), = pair; out[f.name] = (ks.pop(), i, j)
+        self._outvals = out
+        return out
     def writes(self, name):
         """set of param indices the function may write through at any depth (None = unknown: everything)"""
         from .pts import is_pure_external
